@@ -69,22 +69,22 @@ pub struct RespCtx<'a> {
     pub req: &'a CReq,
 }
 
-const HOP: &[&str] = &["connection", "keep-alive", "proxy-connection", "upgrade", "te"];
+pub const HOP: &[&str] = &["connection", "keep-alive", "proxy-connection", "upgrade", "te"];
 
-fn lc(s: &str) -> String { s.to_ascii_lowercase() }
-fn trim(s: &str) -> &str { s.trim_matches(|c| c == ' ' || c == '\t') }
+pub fn lc(s: &str) -> String { s.to_ascii_lowercase() }
+pub fn trim(s: &str) -> &str { s.trim_matches(|c| c == ' ' || c == '\t') }
 
-fn values<'a>(list: &'a [(String, String, String)], name: &str) -> Vec<&'a str> {
+pub fn values<'a>(list: &'a [(String, String, String)], name: &str) -> Vec<&'a str> {
     list.iter().filter(|h| h.0 == name).map(|h| h.2.as_str()).collect()
 }
 
 /// comma separated list elements (RFC 9110 §5.6.1), empty elements dropped
-fn elements(vals: &[&str]) -> Vec<String> {
+pub fn elements(vals: &[&str]) -> Vec<String> {
     vals.iter().flat_map(|v| v.split(',')).map(|e| trim(e).to_string()).filter(|e| !e.is_empty()).collect()
 }
 
 /// split at a separator outside double quotes
-fn split_outside_quotes(s: &str, sep: char) -> Vec<String> {
+pub fn split_outside_quotes(s: &str, sep: char) -> Vec<String> {
     let mut out = Vec::new();
     let mut cur = String::new();
     let mut q = false;
@@ -99,14 +99,14 @@ fn split_outside_quotes(s: &str, sep: char) -> Vec<String> {
     out.push(trim(&cur).to_string());
     out.into_iter().filter(|e| !e.is_empty()).collect()
 }
-fn fwd_elements(vals: &[&str]) -> Vec<String> { vals.iter().flat_map(|v| split_outside_quotes(v, ',')).collect() }
+pub fn fwd_elements(vals: &[&str]) -> Vec<String> { vals.iter().flat_map(|v| split_outside_quotes(v, ',')).collect() }
 
-fn is_token(s: &str) -> bool {
+pub fn is_token(s: &str) -> bool {
     !s.is_empty() && s.bytes().all(|b| b.is_ascii_alphanumeric() || b"!#$%&'*+-.^_`|~".contains(&b))
 }
 
 /// RFC 7239 §4: forwarded-pair = token "=" ( token / quoted-string ). Returns lower-cased names.
-fn fwd_params(elem: &str) -> Result<Vec<(String, String)>, String> {
+pub fn fwd_params(elem: &str) -> Result<Vec<(String, String)>, String> {
     let mut out = Vec::new();
     for p in split_outside_quotes(elem, ';') {
         let (k, v) = p.split_once('=').ok_or_else(|| format!("pair without '=': {p:?}"))?;
@@ -124,7 +124,7 @@ fn fwd_params(elem: &str) -> Result<Vec<(String, String)>, String> {
 }
 
 /// RFC 7239 §6 node = nodename [ ":" node-port ], IPv6 in brackets. Obfuscated names are not accepted as truthful.
-fn parse_node(s: &str) -> Option<(IpAddr, Option<u16>)> {
+pub fn parse_node(s: &str) -> Option<(IpAddr, Option<u16>)> {
     if let Some(rest) = s.strip_prefix('[') {
         let i = rest.find(']')?;
         let ip: Ipv6Addr = rest[..i].parse().ok()?;
@@ -139,20 +139,20 @@ fn parse_node(s: &str) -> Option<(IpAddr, Option<u16>)> {
     Some((IpAddr::V4(ip), Some(b.parse().ok()?)))
 }
 
-fn ip_eq(s: &str, ip: IpAddr) -> bool { s.parse::<IpAddr>().map_or(false, |x| x == ip) }
+pub fn ip_eq(s: &str, ip: IpAddr) -> bool { s.parse::<IpAddr>().map_or(false, |x| x == ip) }
 
 #[derive(PartialEq)]
-enum Diff { Same, Lost, Reordered, Altered, Added }
+pub enum Diff { Same, Lost, Reordered, Altered, Added }
 impl Diff {
-    fn class(&self) -> &'static str { match self { Diff::Lost => "header_lost", Diff::Reordered => "header_reordered", _ => "header_altered" } }
-    fn word(&self) -> &'static str { match self { Diff::Same => "same", Diff::Lost => "lost", Diff::Reordered => "reordered", Diff::Altered => "altered", Diff::Added => "unexpected_extra_value" } }
+    pub fn class(&self) -> &'static str { match self { Diff::Lost => "header_lost", Diff::Reordered => "header_reordered", _ => "header_altered" } }
+    pub fn word(&self) -> &'static str { match self { Diff::Same => "same", Diff::Lost => "lost", Diff::Reordered => "reordered", Diff::Altered => "altered", Diff::Added => "unexpected_extra_value" } }
 }
-fn is_subseq<T: PartialEq>(small: &[T], big: &[T]) -> bool {
+pub fn is_subseq<T: PartialEq>(small: &[T], big: &[T]) -> bool {
     let mut i = 0;
     for b in big { if i < small.len() && small[i] == *b { i += 1; } }
     i == small.len()
 }
-fn diff<T: PartialEq + Ord + Clone>(want: &[T], got: &[T]) -> Diff {
+pub fn diff<T: PartialEq + Ord + Clone>(want: &[T], got: &[T]) -> Diff {
     if want == got { return Diff::Same; }
     if got.len() < want.len() && is_subseq(got, want) { return Diff::Lost; }
     let (mut a, mut b) = (want.to_vec(), got.to_vec());
@@ -163,10 +163,10 @@ fn diff<T: PartialEq + Ord + Clone>(want: &[T], got: &[T]) -> Diff {
     Diff::Altered
 }
 
-fn cookie_pairs(vals: &[&str]) -> Vec<String> {
+pub fn cookie_pairs(vals: &[&str]) -> Vec<String> {
     vals.iter().flat_map(|v| v.split(';')).map(|c| trim(c).to_string()).filter(|c| !c.is_empty()).collect()
 }
-fn cookie_name(pair: &str) -> &str { pair.split_once('=').map_or("", |x| x.0) }
+pub fn cookie_name(pair: &str) -> &str { pair.split_once('=').map_or("", |x| x.0) }
 
 /// plan-level trigger of one request header field
 fn field_trigger(r: &CReq, name: &str) -> &'static str {
@@ -206,17 +206,155 @@ pub fn features(r: &CReq, o: &Opts, _sticky: bool) -> String {
     if o.expect_proxy { format!("{f},proxy_v2") } else { f.to_string() }
 }
 
-fn cnt(n: usize) -> &'static str { match n { 0 => "0", 1 => "1", _ => "2+" } }
+pub fn cnt(n: usize) -> &'static str { match n { 0 => "0", 1 => "1", _ => "2+" } }
+
+/// Truthfulness / non-spoofability of the proxy metadata of one forwarded request: X-Forwarded-For and
+/// Forwarded (client's elements + exactly one element naming the peer, last), X-Real-IP per the listener
+/// knobs, X-Forwarded-Proto/-Port, exactly one X-Request-Id and one correlation header (equal to the
+/// response's). `sent` / `got`: (lower-case name, spelling, value without optional whitespace).
+/// Shared by the HTTP/1.1 family and the mux family (HTTP/2 on either side).
+pub fn check_identity(sent: &[(String, String, String)], got: &[(String, String, String)], ctx: &ReqCtx, probe: &mut dyn FnMut(&str, u64)) -> Vec<Violation> {
+    let mut v: Vec<Violation> = Vec::new();
+    let o = ctx.opts;
+    let peer = ctx.truth.peer;
+    let corr = lc(o.corr());
+    let px = if o.expect_proxy { ",proxy_v2" } else { "" };
+    let fam = if peer.is_ipv6() { "v6" } else { "v4" };
+    // ---- X-Forwarded-For: client's elements + the peer, last
+    {
+        let s = values(sent, "x-forwarded-for");
+        let g = values(got, "x-forwarded-for");
+        let (se, ge) = (elements(&s), elements(&g));
+        let trig = format!("client_sent={},{fam}{px}", cnt(s.len()));
+        match ge.last() {
+            None => v.push(Violation::new("untruthful_xff", format!("x-forwarded-for|missing,{trig}"), format!("no X-Forwarded-For at the backend; peer is {}", peer.ip()))),
+            Some(l) if ip_eq(l, peer.ip()) => {
+                let d = diff(&se, &ge[..ge.len() - 1].to_vec());
+                if d != Diff::Same { v.push(Violation::new(d.class(), format!("x-forwarded-for|{},{trig}", d.word()), format!("X-Forwarded-For chain before the peer hop is {:?}, client sent {se:?}", &ge[..ge.len() - 1]))); }
+                probe("xff_truthful", 1);
+            }
+            Some(l) => {
+                let class = if se.contains(l) { "spoofed_trusted_position" } else { "untruthful_xff" };
+                v.push(Violation::new(class, format!("x-forwarded-for|last_element,{trig}"), format!("last X-Forwarded-For element is {l:?}, the peer is {} (backend got {g:?}, client sent {s:?})", peer.ip())));
+            }
+        }
+    }
+    // ---- Forwarded: client's elements + one element describing this hop, last
+    {
+        let s = values(sent, "forwarded");
+        let g = values(got, "forwarded");
+        let (se, ge) = (fwd_elements(&s), fwd_elements(&g));
+        let trig = format!("client_sent={},{fam}{px}", cnt(s.len()));
+        match ge.last() {
+            None => v.push(Violation::new("untruthful_forwarded", format!("forwarded|missing,{trig}"), format!("no Forwarded at the backend; peer is {peer}"))),
+            Some(l) => {
+                let mut why: Option<String> = None;
+                match fwd_params(l) {
+                    Err(e) => why = Some(format!("malformed element: {e}")),
+                    Ok(ps) => {
+                        let get = |k: &str| -> Vec<&str> { ps.iter().filter(|p| p.0 == k).map(|p| p.1.as_str()).collect() };
+                        let f = get("for");
+                        if f.len() != 1 { why = Some(format!("{} for= parameters", f.len())); }
+                        else {
+                            match parse_node(f[0]) {
+                                Some((ip, port)) if ip == peer.ip() && port.map_or(true, |p| p == peer.port()) => {}
+                                _ => why = Some(format!("for={:?} does not name the peer {peer}", f[0])),
+                            }
+                        }
+                        for b in get("by") {
+                            match parse_node(b) {
+                                Some((ip, port)) if ctx.truth.by.iter().any(|a| a.ip() == ip && port.map_or(true, |p| p == a.port())) => {}
+                                _ => why = why.or(Some(format!("by={b:?} is not the proxy's address {:?}", ctx.truth.by))),
+                            }
+                        }
+                        for p in get("proto") { if !p.eq_ignore_ascii_case(ctx.truth.proto) { why = why.or(Some(format!("proto={p:?} on a plaintext listener"))); } }
+                        for p in get("host") { if Some(p) != values(sent, "host").first().copied() { why = why.or(Some(format!("host={p:?}"))); } }
+                        if let Some(p) = ps.iter().find(|p| !["for", "by", "proto", "host"].contains(&p.0.as_str())) { why = why.or(Some(format!("unknown parameter {:?}", p.0))); }
+                    }
+                }
+                match why {
+                    Some(w) => {
+                        let class = if se.contains(l) { "spoofed_trusted_position" } else { "untruthful_forwarded" };
+                        v.push(Violation::new(class, format!("forwarded|last_element,{trig}"), format!("last Forwarded element {l:?}: {w} (backend got {g:?}, client sent {s:?})")));
+                    }
+                    None => {
+                        let d = diff(&se, &ge[..ge.len() - 1].to_vec());
+                        if d != Diff::Same { v.push(Violation::new(d.class(), format!("forwarded|{},{trig}", d.word()), format!("Forwarded elements before this hop are {:?}, client sent {se:?}", &ge[..ge.len() - 1]))); }
+                        probe("forwarded_truthful", 1);
+                    }
+                }
+            }
+        }
+    }
+    // ---- X-Real-IP
+    {
+        let s: Vec<String> = values(sent, "x-real-ip").iter().map(|x| x.to_string()).collect();
+        let g: Vec<String> = values(got, "x-real-ip").iter().map(|x| x.to_string()).collect();
+        let trig = format!("elide={},send={}{px}", o.elide_x_real_ip as u8, o.send_x_real_ip as u8);
+        let mut client_part = g.clone();
+        if o.send_x_real_ip {
+            match client_part.pop() {
+                Some(l) if ip_eq(&l, peer.ip()) => probe("x_real_ip_injected_truthful", 1),
+                Some(l) => v.push(Violation::new(if s.contains(&l) { "spoofed_trusted_position" } else { "untruthful_real_ip" }, format!("x-real-ip|injected_value,{trig}"), format!("send_x_real_ip: last X-Real-IP is {l:?}, the peer is {} (backend got {g:?}, client sent {s:?})", peer.ip()))),
+                None => v.push(Violation::new("untruthful_real_ip", format!("x-real-ip|not_injected,{trig}"), format!("send_x_real_ip is set but the backend got no X-Real-IP; peer is {}", peer.ip()))),
+            }
+        }
+        if o.elide_x_real_ip {
+            if !client_part.is_empty() { v.push(Violation::new("spoofed_trusted_position", format!("x-real-ip|client_value_not_elided,{trig}"), format!("elide_x_real_ip: client-supplied X-Real-IP {client_part:?} reached the backend (client sent {s:?})"))); }
+            else if !s.is_empty() { probe("x_real_ip_elided", 1); }
+        } else {
+            let d = diff(&s, &client_part);
+            if d != Diff::Same { v.push(Violation::new(if d == Diff::Added && !o.send_x_real_ip { "header_altered" } else { d.class() }, format!("x-real-ip|{},{trig}", d.word()), format!("client X-Real-IP values at the backend {client_part:?}, client sent {s:?}"))); }
+        }
+    }
+    // ---- X-Forwarded-Proto / X-Forwarded-Port
+    for (n, want_gen) in [("x-forwarded-proto", vec![ctx.truth.proto.to_string()]), ("x-forwarded-port", ctx.truth.by.iter().map(|a| a.port().to_string()).collect::<Vec<_>>())] {
+        let s = values(sent, n);
+        let g = values(got, n);
+        if !s.is_empty() {
+            // documented as trusted: passes verbatim
+            let d = diff(&s, &g);
+            if d != Diff::Same { v.push(Violation::new(d.class(), format!("{n}|{},client_sent", d.word()), format!("{n}: backend got {g:?}, client sent {s:?} (documented as trusted)"))); }
+            else { probe("x_forwarded_proto_port_trusted", 1); }
+        } else if g.len() != 1 || !want_gen.iter().any(|w| w.eq_ignore_ascii_case(g[0])) {
+            v.push(Violation::new("untruthful_proto_port", format!("{n}|client_sent_none{}{px}", if o.public_address.is_some() { ",public_address" } else { "" }), format!("{n}: backend got {g:?}, the listener is {:?} ({})", ctx.truth.by, ctx.truth.proto)));
+        } else { probe("x_forwarded_proto_port_generated", 1); }
+    }
+    // ---- X-Request-Id
+    {
+        let s = values(sent, "x-request-id");
+        let g = values(got, "x-request-id");
+        if g.len() != 1 { v.push(Violation::new("id_header_count", format!("x-request-id|client_sent={}", cnt(s.len())), format!("backend got {} X-Request-Id fields {g:?}, client sent {s:?}", g.len()))); }
+        else if s.len() == 1 && s[0] != g[0] { v.push(Violation::new("header_altered", "x-request-id|client_sent=1", format!("X-Request-Id {:?} replaced by {:?}", s[0], g[0]))); }
+        else if g[0].is_empty() { v.push(Violation::new("id_header_count", "x-request-id|empty", "empty X-Request-Id".to_string())); }
+        else if s.len() == 1 { probe("x_request_id_preserved", 1); } else { probe("x_request_id_generated", 1); }
+    }
+    // ---- correlation header
+    {
+        let s = values(sent, &corr);
+        let g = values(got, &corr);
+        let trig = format!("client_sent={}{}", cnt(s.len()), if o.sozu_id_header.is_some() { ",custom_name" } else { "" });
+        if g.len() != 1 {
+            let class = if g.iter().any(|x| s.contains(x)) { "spoofed_trusted_position" } else { "id_header_count" };
+            v.push(Violation::new(class, format!("correlation|count={},{trig}", cnt(g.len())), format!("backend got {} {} fields {g:?}; client sent {s:?}: a client-supplied value sits where backends read the proxy's correlation id", g.len(), o.corr())));
+        } else if s.contains(&g[0]) {
+            v.push(Violation::new("spoofed_trusted_position", format!("correlation|client_value,{trig}"), format!("the only {} at the backend is the client's {:?}", o.corr(), g[0])));
+        }
+        if let Some(rc) = ctx.resp_corr {
+            let last = g.last().copied();
+            if rc.len() == 1 && last.is_some() && last != Some(rc[0].as_str()) { v.push(Violation::new("id_header_count", format!("correlation|request_response_mismatch,{trig}"), format!("correlation id on the request {last:?} differs from the one on its response {rc:?}"))); }
+            else if rc.len() == 1 && g.len() == 1 { probe("correlation_request_response_match", 1); }
+        }
+    }
+    v
+}
 
 #[allow(clippy::too_many_arguments)]
 pub fn check_request(r: &CReq, start: &str, got_raw: &[(String, String)], got_trailers: &[(String, String)], complete: bool, ctx: &ReqCtx, probe: &mut dyn FnMut(&str, u64)) -> Vec<Violation> {
     let mut v: Vec<Violation> = Vec::new();
     let o = ctx.opts;
-    let peer = ctx.truth.peer;
     let corr = lc(o.corr());
     let sticky_name = o.sticky_name();
-    let px = if o.expect_proxy { ",proxy_v2" } else { "" };
-    let fam = if peer.is_ipv6() { "v6" } else { "v4" };
     // (lower-case name, spelling, value without optional whitespace)
     let sent: Vec<(String, String, String)> = r.headers.iter().map(|h| (lc(&h.0), h.0.clone(), trim(&h.1).to_string())).collect();
     let got: Vec<(String, String, String)> = got_raw.iter().map(|h| (lc(&h.0), h.0.clone(), trim(&h.1).to_string())).collect();
@@ -302,132 +440,7 @@ pub fn check_request(r: &CReq, start: &str, got_raw: &[(String, String)], got_tr
         if !e.val.is_empty() && !names.contains(&lc(&e.key)) { v.push(Violation::new("header_lost", format!("{}|frontend_request_edit_set", lc(&e.key)), format!("frontend edit {}={:?} not applied: field absent at the backend", e.key, e.val))); }
     }
 
-    // ---- X-Forwarded-For: client's elements + the peer, last
-    {
-        let s = values(&sent, "x-forwarded-for");
-        let g = values(&got, "x-forwarded-for");
-        let (se, ge) = (elements(&s), elements(&g));
-        let trig = format!("client_sent={},{fam}{px}", cnt(s.len()));
-        match ge.last() {
-            None => v.push(Violation::new("untruthful_xff", format!("x-forwarded-for|missing,{trig}"), format!("no X-Forwarded-For at the backend; peer is {}", peer.ip()))),
-            Some(l) if ip_eq(l, peer.ip()) => {
-                let d = diff(&se, &ge[..ge.len() - 1].to_vec());
-                if d != Diff::Same { v.push(Violation::new(d.class(), format!("x-forwarded-for|{},{trig}", d.word()), format!("X-Forwarded-For chain before the peer hop is {:?}, client sent {se:?}", &ge[..ge.len() - 1]))); }
-                probe("xff_truthful", 1);
-            }
-            Some(l) => {
-                let class = if se.contains(l) { "spoofed_trusted_position" } else { "untruthful_xff" };
-                v.push(Violation::new(class, format!("x-forwarded-for|last_element,{trig}"), format!("last X-Forwarded-For element is {l:?}, the peer is {} (backend got {g:?}, client sent {s:?})", peer.ip())));
-            }
-        }
-    }
-    // ---- Forwarded: client's elements + one element describing this hop, last
-    {
-        let s = values(&sent, "forwarded");
-        let g = values(&got, "forwarded");
-        let (se, ge) = (fwd_elements(&s), fwd_elements(&g));
-        let trig = format!("client_sent={},{fam}{px}", cnt(s.len()));
-        match ge.last() {
-            None => v.push(Violation::new("untruthful_forwarded", format!("forwarded|missing,{trig}"), format!("no Forwarded at the backend; peer is {peer}"))),
-            Some(l) => {
-                let mut why: Option<String> = None;
-                match fwd_params(l) {
-                    Err(e) => why = Some(format!("malformed element: {e}")),
-                    Ok(ps) => {
-                        let get = |k: &str| -> Vec<&str> { ps.iter().filter(|p| p.0 == k).map(|p| p.1.as_str()).collect() };
-                        let f = get("for");
-                        if f.len() != 1 { why = Some(format!("{} for= parameters", f.len())); }
-                        else {
-                            match parse_node(f[0]) {
-                                Some((ip, port)) if ip == peer.ip() && port.map_or(true, |p| p == peer.port()) => {}
-                                _ => why = Some(format!("for={:?} does not name the peer {peer}", f[0])),
-                            }
-                        }
-                        for b in get("by") {
-                            match parse_node(b) {
-                                Some((ip, port)) if ctx.truth.by.iter().any(|a| a.ip() == ip && port.map_or(true, |p| p == a.port())) => {}
-                                _ => why = why.or(Some(format!("by={b:?} is not the proxy's address {:?}", ctx.truth.by))),
-                            }
-                        }
-                        for p in get("proto") { if !p.eq_ignore_ascii_case(ctx.truth.proto) { why = why.or(Some(format!("proto={p:?} on a plaintext listener"))); } }
-                        for p in get("host") { if Some(p) != values(&sent, "host").first().copied() { why = why.or(Some(format!("host={p:?}"))); } }
-                        if let Some(p) = ps.iter().find(|p| !["for", "by", "proto", "host"].contains(&p.0.as_str())) { why = why.or(Some(format!("unknown parameter {:?}", p.0))); }
-                    }
-                }
-                match why {
-                    Some(w) => {
-                        let class = if se.contains(l) { "spoofed_trusted_position" } else { "untruthful_forwarded" };
-                        v.push(Violation::new(class, format!("forwarded|last_element,{trig}"), format!("last Forwarded element {l:?}: {w} (backend got {g:?}, client sent {s:?})")));
-                    }
-                    None => {
-                        let d = diff(&se, &ge[..ge.len() - 1].to_vec());
-                        if d != Diff::Same { v.push(Violation::new(d.class(), format!("forwarded|{},{trig}", d.word()), format!("Forwarded elements before this hop are {:?}, client sent {se:?}", &ge[..ge.len() - 1]))); }
-                        probe("forwarded_truthful", 1);
-                    }
-                }
-            }
-        }
-    }
-    // ---- X-Real-IP
-    {
-        let s: Vec<String> = values(&sent, "x-real-ip").iter().map(|x| x.to_string()).collect();
-        let g: Vec<String> = values(&got, "x-real-ip").iter().map(|x| x.to_string()).collect();
-        let trig = format!("elide={},send={}{px}", o.elide_x_real_ip as u8, o.send_x_real_ip as u8);
-        let mut client_part = g.clone();
-        if o.send_x_real_ip {
-            match client_part.pop() {
-                Some(l) if ip_eq(&l, peer.ip()) => probe("x_real_ip_injected_truthful", 1),
-                Some(l) => v.push(Violation::new(if s.contains(&l) { "spoofed_trusted_position" } else { "untruthful_real_ip" }, format!("x-real-ip|injected_value,{trig}"), format!("send_x_real_ip: last X-Real-IP is {l:?}, the peer is {} (backend got {g:?}, client sent {s:?})", peer.ip()))),
-                None => v.push(Violation::new("untruthful_real_ip", format!("x-real-ip|not_injected,{trig}"), format!("send_x_real_ip is set but the backend got no X-Real-IP; peer is {}", peer.ip()))),
-            }
-        }
-        if o.elide_x_real_ip {
-            if !client_part.is_empty() { v.push(Violation::new("spoofed_trusted_position", format!("x-real-ip|client_value_not_elided,{trig}"), format!("elide_x_real_ip: client-supplied X-Real-IP {client_part:?} reached the backend (client sent {s:?})"))); }
-            else if !s.is_empty() { probe("x_real_ip_elided", 1); }
-        } else {
-            let d = diff(&s, &client_part);
-            if d != Diff::Same { v.push(Violation::new(if d == Diff::Added && !o.send_x_real_ip { "header_altered" } else { d.class() }, format!("x-real-ip|{},{trig}", d.word()), format!("client X-Real-IP values at the backend {client_part:?}, client sent {s:?}"))); }
-        }
-    }
-    // ---- X-Forwarded-Proto / X-Forwarded-Port
-    for (n, want_gen) in [("x-forwarded-proto", vec![ctx.truth.proto.to_string()]), ("x-forwarded-port", ctx.truth.by.iter().map(|a| a.port().to_string()).collect::<Vec<_>>())] {
-        let s = values(&sent, n);
-        let g = values(&got, n);
-        if !s.is_empty() {
-            // documented as trusted: passes verbatim
-            let d = diff(&s, &g);
-            if d != Diff::Same { v.push(Violation::new(d.class(), format!("{n}|{},client_sent", d.word()), format!("{n}: backend got {g:?}, client sent {s:?} (documented as trusted)"))); }
-            else { probe("x_forwarded_proto_port_trusted", 1); }
-        } else if g.len() != 1 || !want_gen.iter().any(|w| w.eq_ignore_ascii_case(g[0])) {
-            v.push(Violation::new("untruthful_proto_port", format!("{n}|client_sent_none{}{px}", if o.public_address.is_some() { ",public_address" } else { "" }), format!("{n}: backend got {g:?}, the listener is {:?} ({})", ctx.truth.by, ctx.truth.proto)));
-        } else { probe("x_forwarded_proto_port_generated", 1); }
-    }
-    // ---- X-Request-Id
-    {
-        let s = values(&sent, "x-request-id");
-        let g = values(&got, "x-request-id");
-        if g.len() != 1 { v.push(Violation::new("id_header_count", format!("x-request-id|client_sent={}", cnt(s.len())), format!("backend got {} X-Request-Id fields {g:?}, client sent {s:?}", g.len()))); }
-        else if s.len() == 1 && s[0] != g[0] { v.push(Violation::new("header_altered", "x-request-id|client_sent=1", format!("X-Request-Id {:?} replaced by {:?}", s[0], g[0]))); }
-        else if g[0].is_empty() { v.push(Violation::new("id_header_count", "x-request-id|empty", "empty X-Request-Id".to_string())); }
-        else if s.len() == 1 { probe("x_request_id_preserved", 1); } else { probe("x_request_id_generated", 1); }
-    }
-    // ---- correlation header
-    {
-        let s = values(&sent, &corr);
-        let g = values(&got, &corr);
-        let trig = format!("client_sent={}{}", cnt(s.len()), if o.sozu_id_header.is_some() { ",custom_name" } else { "" });
-        if g.len() != 1 {
-            let class = if g.iter().any(|x| s.contains(x)) { "spoofed_trusted_position" } else { "id_header_count" };
-            v.push(Violation::new(class, format!("correlation|count={},{trig}", cnt(g.len())), format!("backend got {} {} fields {g:?}; client sent {s:?}: a client-supplied value sits where backends read the proxy's correlation id", g.len(), o.corr())));
-        } else if s.contains(&g[0]) {
-            v.push(Violation::new("spoofed_trusted_position", format!("correlation|client_value,{trig}"), format!("the only {} at the backend is the client's {:?}", o.corr(), g[0])));
-        }
-        if let Some(rc) = ctx.resp_corr {
-            let last = g.last().copied();
-            if rc.len() == 1 && last.is_some() && last != Some(rc[0].as_str()) { v.push(Violation::new("id_header_count", format!("correlation|request_response_mismatch,{trig}"), format!("correlation id on the request {last:?} differs from the one on its response {rc:?}"))); }
-            else if rc.len() == 1 && g.len() == 1 { probe("correlation_request_response_match", 1); }
-        }
-    }
+    v.extend(check_identity(&sent, &got, ctx, &mut *probe));
     // ---- trailers
     if complete && r.chunks.is_some() {
         let st: Vec<(String, String)> = r.trailers.iter().map(|t| (lc(&t.0), trim(&t.1).to_string())).collect();
